@@ -123,10 +123,68 @@ if __name__ == '__main__':
 """
 
 
+def forms_checks(ctx, d):
+    """The ways an experiment can be written down and configured: a cross product of environments, learners and
+    evaluators IS the list of its triples in product order (environment-major); a pair without evaluator IS the triple with a
+    SequentialCB() of its own; config(...) IS the same as passing the numbers to run()."""
+    from coba.experiments import Experiment
+    from coba.evaluators import SequentialCB
+    shape = dict(tr=[(e, l, v) for e in range(2) for l in range(2) for v in range(2)], ch=[1, 1], fail=[])     # the full product 2 x 2 x 2
+    def parts():
+        tr = explib.build(shape)
+        envs = []; lrns = []; vals = []
+        for e, l, v in tr:
+            if not any(e is x for x in envs): envs.append(e)
+            if not any(l is x for x in lrns): lrns.append(l)
+            if not any(v is x for x in vals): vals.append(v)
+        return tr, envs, lrns, vals
+    def go(exp, **kw):
+        explib.quiet_ctx(); return explib.result_digest(exp.run(quiet=True, **kw))
+    tr, _, _, _ = parts(); ref = go(Experiment(tr), processes=1)
+    runs = {}
+    _, envs, lrns, vals = parts(); runs["cross product (lists)"] = lambda: go(Experiment(envs, lrns, vals), processes=1)
+    _, envs, lrns, vals = parts(); runs["cross product (keywords)"] = lambda: go(Experiment(environments=envs, learners=lrns, evaluator=vals), processes=1)
+    tr2, _, _, _ = parts(); runs["eval_tuples keyword + description"] = lambda: go(Experiment(eval_tuples=tr2, description="d"), processes=1)
+    for name, f in runs.items():
+        ctx.case("form:" + name)
+        try: got = f()
+        except Exception as e:
+            ctx.violation("form-raises", "%s raised %s: %s" % (name, type(e).__name__, str(e)[:150]), dict(form=name)); continue
+        got = dict(got); refx = dict(ref)
+        if name.endswith("description"): got["exp"] = dict(got["exp"]); got["exp"].pop("description", None); refx["exp"] = dict(ref["exp"]); refx["exp"].pop("description", None)
+        dd = explib.diff_digest(refx, got)
+        if dd: ctx.violation("form-differs", "the experiment written as a %s gives another Result than the list of its triples: %s" % (name, dd), dict(form=name))
+    # single objects instead of lists; pairs without evaluator
+    sh1 = dict(tr=[(0, 0, 0)], ch=[0], fail=[])
+    (e, l, v), = explib.build(sh1); a = go(Experiment([(e, l, SequentialCB())]), processes=1)
+    for name, mk in (("single environment and learner", lambda e, l: Experiment(e, l)), ("pair without evaluator", lambda e, l: Experiment([(e, l)])),
+                     ("single-element lists", lambda e, l: Experiment([e], [l], SequentialCB()))):
+        (e, l, v), = explib.build(sh1)
+        ctx.case("form:" + name)
+        try: got = go(mk(e, l), processes=1)
+        except Exception as ex:
+            ctx.violation("form-raises", "%s raised %s: %s" % (name, type(ex).__name__, str(ex)[:150]), dict(form=name)); continue
+        dd = explib.diff_digest(a, got)
+        if dd: ctx.violation("form-differs", "%s gives another Result than [(env, learner, SequentialCB())]: %s" % (name, dd), dict(form=name))
+    # config(...) instead of run(...) arguments, on the virtual multi-process layer
+    for k, cfg in enumerate([dict(processes=2, maxchunksperchild=1, maxtasksperchunk=1), dict(processes=2, maxchunksperchild=0, maxtasksperchunk=2)]):
+        tr3, _, _, _ = parts()
+        def run_cfg_form():
+            explib.quiet_ctx()
+            return Experiment(tr3).config(**cfg).run(quiet=True)
+        out, _ = vmp.run_scheduled(run_cfg_form, vsched.random_policy(random.Random(ctx.seed + k)))
+        ctx.case("form:config%d" % k)
+        if out["verdict"] != "ok" or "error" in out:
+            ctx.violation("form-raises", "config(%s).run() did not complete: %s %r" % (cfg, out["verdict"], out.get("error")), dict(form="config", cfg=cfg)); continue
+        dd = explib.diff_digest(ref, explib.result_digest(out["value"]))
+        if dd: ctx.violation("form-differs", "config(%s).run() gives another Result than the in-process run: %s" % (cfg, dd), dict(form="config", cfg=cfg))
+
+
 def run(ctx):
     rng = random.Random(ctx.seed)
     spec_runs(ctx)
     plan_checks(ctx)
+    forms_checks(ctx, None)
     d = os.path.join(ctx.scratch, "runs"); os.makedirs(d, exist_ok=True)
     grid = [dict(p=p, mc=mc, mt=mt) for p in ctx.pick((1, 2), (1, 2, 3)) for mc in (0, 1, 2) for mt in (0, 1, 2)]
     nsched = ctx.pick(3, 25)
